@@ -33,6 +33,7 @@
  */
 #include <ctype.h>
 #include <errno.h>
+#include <fcntl.h>
 #include <limits.h>
 #include <stdint.h>
 #include <stdio.h>
@@ -209,6 +210,8 @@ static void dump(int idx, const char * text, const char * res, int full)
     else
     {
         printf("~ %u %u %u %u\n", G->free, G->w_index, G->wb_top[0], G->wb_top[1]);
+        if ((idx & 255) == 0)
+            fflush(stdout);
     }
 }
 
@@ -507,6 +510,30 @@ static gc_stack * build_stack(int pos, unsigned int n)
     return st;
 }
 
+/* what follows in the history: 0 = nothing, 1 = a collect/run, 2 = another operation */
+static int peek_next(const char * p)
+{
+    while (p != NULL && *p)
+    {
+        const char * e = strchr(p, '\n');
+        const char * q = p;
+        while (*q == ' ' || *q == '\t' || *q == '\r')
+            q++;
+        if (*q != 0 && *q != '\n' && *q != '#')
+        {
+            if (strncmp(q, "collect", 7) == 0 && (q[7] == ' ' || q[7] == '\n' || q[7] == 0))
+                return 1;
+            if (strncmp(q, "run", 3) == 0 && (q[3] == ' ' || q[3] == '\n' || q[3] == 0))
+                return 1;
+            return 2;
+        }
+        p = e ? e + 1 : NULL;
+    }
+    return 0;
+}
+
+static int sparse = 0;
+
 static void run_history(const char * path)
 {
     FILE * f = fopen(path, "rb");
@@ -588,7 +615,7 @@ static void run_history(const char * path)
             {
                 char t[64];
                 snprintf(t, sizeof t, "new %u", size);
-                dump(0, t, "ret 0");
+                dump(0, t, "ret 0", 1);
             }
             free(text);
             continue;
@@ -721,7 +748,11 @@ static void run_history(const char * path)
         }
         else
             format_error("unknown operation", toks[0]);
-        dump(idx, text, res);
+        {
+            int pk = peek_next(next);
+            int coll = strcmp(toks[0], "collect") == 0 || strcmp(toks[0], "run") == 0;
+            dump(idx, text, res, sparse <= 0 || idx % sparse == 0 || coll || pk != 2);
+        }
         free(text);
     }
     if (!have_size)
@@ -859,6 +890,70 @@ static int oomprobe(unsigned int size)
     return 0;
 }
 
+/* ---------- trigger probe ------------------------------------------------------------- */
+/* gc_run on a fake collector: wb_list == NULL, so a collection (gc_sweep_all reading the list)
+ * kills the child; no collection returns at once. */
+static int probe_one(unsigned int size, unsigned int top)
+{
+    pid_t pid;
+    int status = 0;
+    fflush(stdout);
+    pid = fork();
+    if (pid < 0)
+        return -1;
+    if (pid == 0)
+    {
+        gc fake;
+        int devnull = open("/dev/null", O_WRONLY);
+        if (devnull >= 0)
+        {
+            dup2(devnull, 2);
+            close(devnull);
+        }
+        memset(&fake, 0, sizeof fake);
+        fake.free = 0;
+        fake.mem_size = size;
+        fake.mem = NULL;
+        fake.w_index = 0;
+        fake.wb_top[0] = top;
+        fake.wb_top[1] = 0;
+        fake.wb_list[0] = NULL;
+        fake.wb_list[1] = NULL;
+        gc_run(&fake, NULL, 0, 0);
+        _exit(fake.wb_top[0] == top && fake.w_index == 0 ? 0 : 7);
+    }
+    waitpid(pid, &status, 0);
+    if (WIFEXITED(status) && WEXITSTATUS(status) == 0)
+        return 0;              /* returned without collecting */
+    return 1;                  /* went into the collection */
+}
+
+static int triggerprobe(void)
+{
+    static const unsigned int sizes[] = {
+        5u, 10u, 65535u, 65536u, 65537u, 65540u, 1u << 20, (1u << 24) - 1, 1u << 24, (1u << 24) + 1,
+        16777220u, 100000000u, 1000000005u, (1u << 31) - 1, 1u << 31, (1u << 31) + 1, 2147483650u,
+        3000000000u, 3000000001u, 4294967290u, 4294967294u, 4294967295u };
+    unsigned int k;
+    int bad = 0;
+    for (k = 0; k < sizeof sizes / sizeof sizes[0]; k++)
+    {
+        unsigned long long size = sizes[k];
+        unsigned long long t = (4 * size + 4) / 5;       /* least top with 5*top >= 4*size */
+        int below, at;
+        if (t > 0xffffffffULL)
+            continue;
+        below = t > 0 ? probe_one(sizes[k], (unsigned int)(t - 1)) : 0;
+        at = probe_one(sizes[k], (unsigned int)t);
+        printf("trigger size=%u top=%llu:%s top=%llu:%s%s\n", sizes[k], t - 1, below == 0 ? "no" : "collect",
+               t, at == 1 ? "collect" : "no", (below == 0 && at == 1) ? "" : " MISMATCH");
+        if (!(below == 0 && at == 1))
+            bad = 1;
+    }
+    printf(bad ? "# mismatch\n" : "# done\n");
+    return 0;
+}
+
 int main(int argc, char ** argv)
 {
     if (argc == 3 && strcmp(argv[1], "--oomprobe") == 0)
@@ -872,9 +967,24 @@ int main(int argc, char ** argv)
         }
         return oomprobe((unsigned int)size);
     }
-    if (argc != 2)
+    if (argc == 2 && strcmp(argv[1], "--triggerprobe") == 0)
+        return triggerprobe();
+    if (argc == 4 && strcmp(argv[1], "--sparse") == 0)
     {
-        fprintf(stderr, "usage: gcdrive <file.hist> | gcdrive --oomprobe <size>\n");
+        char * end = NULL;
+        long k = strtol(argv[2], &end, 10);
+        if (end == NULL || *end != 0 || k < 1 || k > 100000000L)
+        {
+            fprintf(stderr, "gcdrive: --sparse <K >= 1>\n");
+            return 2;
+        }
+        sparse = (int)k;
+        run_history(argv[3]);
+        return 0;
+    }
+    if (argc != 2 || argv[1][0] == '-')
+    {
+        fprintf(stderr, "usage: gcdrive [--sparse <K>] <file.hist> | gcdrive --oomprobe <size> | gcdrive --triggerprobe\n");
         return 2;
     }
     run_history(argv[1]);
